@@ -624,6 +624,7 @@ def run(ctx):
         "Less/Equal/Greater (Equal continues, anything else breaks with that order), its operands are self[i]/other[i] with the same index compared "
         "only by f64::total_cmp with zero padding over 0..max(len); PartialOrd/PartialEq delegate to Ord; Add/Sub are element-wise with the right "
         "operator; Goal::total_order folds layers front to back with the same law and calls each layer with (a, b); fitness enumerates the same layers.")
+    ctx.explanation += ' I1 and G1 are whole-function laws: InsertionCost::cmp evaluated over cost vectors of 0/1/2 components per side, Goal::total_order over 0/1/2 layers, fold and loop forms alike.'
     ctx.not_decided = "transitivity of multi-objective (dominance) layers and of custom multi-layer order functions; (x+y)-y == x numerically; sign of zero."
     ctx.assumptions += ["a lexicographic extension of a total order with a fixed padding value is a total order", "f64::total_cmp is a total order (IEEE 754 totalOrder)"]
     ctx.run("C09-I1", "InsertionCost ordering is a lexicographic fold of total_cmp over padded components; PartialOrd/PartialEq agree with Ord", i1_insertion_cost_order, floor=9)
